@@ -836,6 +836,10 @@ fn enc_round(rng: &mut Rng, log: &mut Vec<String>, obj: &mut Enc, kind: Kind, cf
     if let Some(j) = (0..r).find(|&j| got[j].len() != sb) { return Err(format!("recovery shard {} has {} bytes, shard_bytes is {}", j, got[j].len(), sb)); }
     for j in 0..r { if got[j] != want[j] { let t = (0..got[j].len().min(want[j].len())).find(|&t| got[j][t] != want[j][t]);
         return Err(format!("recovery shard {} differs from a fresh encoder's (lengths {} / {}, first differing byte {:?})", j, got[j].len(), want[j].len(), t)); } }
+    // the result has been dropped: the round is over, nothing is held any more (C12 "dropping the result forgets the added shards")
+    if o.again && rng.below(2) == 0 {
+        expect_err!(log, "encode right after the result was dropped", obj.encode().err(), Error::TooFewOriginalShards { original_count: k, original_received_count: 0 });
+    }
     Ok(true)
 }
 
@@ -901,7 +905,11 @@ fn dec_round(rng: &mut Rng, log: &mut Vec<String>, obj: &mut Dec, kind: Kind, cf
     let want = fresh.decode(&probes).map_err(|e| format!("fresh decoder decode {:?}", e))?;
     if got != want { return Err(format!("result differs from that of a fresh decoder given the same shards in the order [{}]", other.iter().map(|&x| show(x)).collect::<Vec<_>>().join(","))); }
     if !o.again { return Ok(true); }
-    // the result has been dropped: the same shards are accepted again and give the same result
+    // the result has been dropped: the round is over, nothing is held any more
+    if rng.below(2) == 0 {
+        expect_err!(log, "decode right after the result was dropped", obj.decode(&probes).err(), Error::NotEnoughShards { original_count: k, original_received_count: 0, recovery_received_count: 0 });
+    }
+    // ... and the same shards are accepted again and give the same result
     shuffle(rng, &mut items);
     log.push("again".into());
     for (p, &it) in items.iter().enumerate() { obj.add(it.0, it.1, shard(it)).map_err(|e| format!("second add of {} after the result was dropped (after {:?}) returned {:?}", show(it), items[..p].iter().map(|&x| show(x)).collect::<Vec<_>>(), e))?; }
